@@ -148,6 +148,39 @@ def justified_unchanged(trace):
     return out
 
 
+def reads_rebuilt_output(case, fname, targets):
+    """does the function `fname` of the case - or a function it calls - query a path that is, lies below or lies above
+    one of `targets`?  (C05: a recorded query on an output that a justified re-execution has just rewritten - new
+    modification time - answers differently, so the reader's re-execution is justified as well)"""
+    funcs = {f['name']: f for f in case.get('funcs', [])}
+    order = [f['name'] for f in case.get('funcs', [])]
+    seen = set()
+
+    def related(p):
+        return any(p == t or p.startswith(t + '/') or t.startswith(p + '/') or p == '' for t in targets)
+
+    def visit(name):
+        if name in seen or name not in funcs:
+            return False
+        seen.add(name)
+        return walk(funcs[name]['stmts'])
+
+    def walk(stmts):
+        for st in stmts:
+            if not isinstance(st, list) or not st:
+                continue
+            if st[0] == 'q' and isinstance(st[2], str) and related(st[2]):
+                return True
+            if st[0] == 'if' and (walk(st[2]) or walk(st[3])):
+                return True
+            if st[0] == 'bf' and isinstance(st[3], int) and st[3] < len(order) and visit(order[st[3]]):
+                return True
+            if st[0] == 'sb' and isinstance(st[1], int) and st[1] < len(order) and visit(order[st[1]]):
+                return True
+        return False
+    return visit(fname)
+
+
 import hashlib
 
 
@@ -426,7 +459,13 @@ def analyze(case, real, spec):
                         json.dumps(so['trace'], sort_keys=True) and last_commit['spec']['res'] == so['res']
                         and canon_versions(last_commit['versions']) == canon_versions(st[2])):
                     stats['unchanged_rebuilds'] += 1
-                    unj = multiset_minus(rk, justified_unchanged(so['trace']))
+                    just = justified_unchanged(so['trace'])
+                    unj = multiset_minus(rk, just)
+                    if unj:
+                        # outputs that justified re-executions have just rewritten: their readers are justified too
+                        rewritten_targets = [json.loads(k)[1] for k in rk if k in just and json.loads(k)[1] is not None]
+                        if rewritten_targets:
+                            unj = [k for k in unj if not reads_rebuilt_output(case, json.loads(k)[0], rewritten_targets)]
                     if unj:
                         ds.append({'cat': 'unjustified', 'step': i, 'detail': unj[:5]})
                     else:
